@@ -6,6 +6,14 @@ props = [json.loads(l) for l in open(os.path.join(HERE, "properties.jsonl"))]
 
 # id -> (technique, level text, level note, design ref)
 CHECKS = {
+ "C26": ("exhaustive small strings/lines + proptest Unicode strings through every Cell implementor, width oracle and watchdog-backed termination check",
+         "Exploration: strings over an atom alphabet (ASCII, CJK, emoji/ZWJ, combining, zero-width, NBSP, U+2003, U+3000, tab, newline), widths and six delimiters through str/String/Paint/Label/Filled and Line::truncate; no panic, display width <= requested width, and every Line::truncate call returns (worker thread + 20 s watchdog, a progress model of the loop confirms a genuine cycle). Strings of <=3 (quick) / <=5 (thorough) atoms and lines of <=2 / <=3 labels are enumerated exhaustively.",
+         "Display width is measured with the crate's own Cell::width on the plain content; a microsecond-scale call that does not return within 60 s is reported as a hang.",
+         "DESIGN.md C26"),
+ "C27": ("proptest raw and structure-mutated agent replies through a mock and a real UnixStream ClientStream + round-trip oracle",
+         "Exploration: arbitrary, prefix-exhaustive and structure-mutated agent replies into every AgentClient operation (mock stream and real socketpair): value or error, never a panic; keys written into an identities answer and 64-byte signatures come back unchanged; read(write(x)) == x for public keys, signatures and secret keys.",
+         "MockSigner/ed25519 keys from seeds; the agent side is simulated.",
+         "DESIGN.md C27"),
  "C16": ("proptest stateful event sequences + exhaustive short sequences against the real Service with a token model of in-flight fetches",
          "Exploration: connect/disconnect/reconnect, fetch commands, refs announcements, ticks and (late) worker results drive the real Service; each Io::Fetch is a token in a harness model that applies the wire's forwarding rule. After every event: <=1 in-flight fetch per repository, per-peer limit, queue bound, no panic, and a delivered result may only complete its own fetch. All sequences of depth 3 (quick) / 5 (thorough) over a 10-event alphabet are enumerated; a directed late-result family is always run. One residual defect is a known finding, one was fixed.",
          "The wire layer is modelled from wire/protocol.rs (results forwarded iff the peer is connected; fetch requests for a peer that just went down are dropped), not executed; connection crossing is not generated.",
